@@ -136,6 +136,29 @@ def shard(args):
                                    {"kind": "c03", "valid": valid, "mutated": mutated, "how": how,
                                     "via_object": True}, "reject", (k, v))
                     return
+        extra_forms[0] += 1
+        if k != "ok" and via_object and extra_forms[0] % 8 == 0:
+            # (every eighth case) other ways of handing the mistyped text over: the documented flags given positionally
+            # (allow_invalid=False, validate_bban=True), and a copy / a pickle of the unvalidated object
+            # asked whether it is valid
+            import copy as _copy
+            import pickle as _pickle
+            part["evals"] += 3
+            k4, v4 = lib.outcome(lambda: str(lib.IBAN(mutated, False, True)))
+            if k4 == "ok":
+                part.violation(f"{kind_}-undetected-with-positional-flags",
+                               {"kind": "c03", "valid": valid, "mutated": mutated, "how": how,
+                                "positional_flags": True}, "reject", (k4, v4))
+                return
+            ko, obj = lib.outcome(lib.IBAN, mutated, allow_invalid=True)
+            if ko == "ok":
+                for way, f in (("copy.copy", _copy.copy), ("pickle", lambda o: _pickle.loads(_pickle.dumps(o)))):
+                    kc, vc = lib.outcome(lambda: (lambda c_: (str(c_), c_.is_valid))(f(obj)))
+                    if kc == "ok" and (vc[1] is True or vc[0] != mutated):
+                        part.violation(f"{kind_}-undetected-on-a-{way}-of-the-unvalidated-object",
+                                       {"kind": "c03", "valid": valid, "mutated": mutated, "how": how,
+                                        "copied": way}, (mutated, False), vc)
+                        return
         if k == "ok":
             if pc is None:
                 part.violation(f"{kind_}-undetected", {"kind": "c03", "valid": valid, "mutated": mutated,
@@ -148,6 +171,7 @@ def shard(args):
     partner_pre = None
     via_object = False
     with_national = False
+    extra_forms = [0]
 
     for f in dict.fromkeys(fillers):
         base = bases.bban(c, f)
@@ -211,7 +235,10 @@ def shard(args):
         # offset the structure admits; typos inside and next to the touched region (successor,
         # predecessor and the region's own filler character per position; adjacent transpositions)
         partner_pre, via_object, with_national = None, False, False
-        for label, body, (lo, hi) in families.special_bodies(c, base):
+        import itertools as _it
+        field_bodies = families.small_field_bodies(c, base, limit=20000,
+                                                   dictionary_only=(tier == "quick"))
+        for label, body, (lo, hi) in _it.chain(families.special_bodies(c, base), field_bodies):
             dd = ri.check_digits(country, body)
             valid = country + dd + body
             part.stat("special_bodies")
@@ -221,8 +248,11 @@ def shard(args):
                     if x not in alpha:
                         continue
                     i = alpha.index(x)
-                    alts = {alpha[(i + 1) % len(alpha)], alpha[i - 1], body[lo] if body[lo] in alpha else alpha[0],
-                            alpha[0]} - {x}
+                    if label.startswith("field:") and lo <= q < hi:
+                        alts = set(alpha) - {x}  # inside a small field: every same-kind character
+                    else:
+                        alts = {alpha[(i + 1) % len(alpha)], alpha[i - 1],
+                                body[lo] if body[lo] in alpha else alpha[0], alpha[0]} - {x}
                     for y in sorted(alts):
                         try_case("substitution", valid, country + dd + body[:q] + y + body[q + 1:],
                                  f"pos {q + 4}: {x}->{y} in {label} body")
@@ -320,6 +350,16 @@ def replay(case: dict) -> dict:
     if case.get("kind") == "c03seq":
         pc, m = case["partner"], case["mutated"]
         lib.iban_parse(pc + ri.check_digits(pc, m[4:]) + m[4:])
+    if case.get("positional_flags"):
+        k4, v4 = lib.outcome(lambda: str(lib.IBAN(case["mutated"], False, True)))
+        return {"ok": k4 != "ok", "observed": (k4, v4), "expected": "reject"}
+    if case.get("copied"):
+        import copy as _copy
+        import pickle as _pickle
+        f = _copy.copy if case["copied"] == "copy.copy" else (lambda o: _pickle.loads(_pickle.dumps(o)))
+        ko, obj = lib.outcome(lib.IBAN, case["mutated"], allow_invalid=True)
+        kc, vc = lib.outcome(lambda: (lambda c_: (str(c_), c_.is_valid))(f(obj)))
+        return {"ok": not (kc == "ok" and (vc[1] is True or vc[0] != case["mutated"])), "observed": (kc, vc)}
     verdict, obs = judge_mutation(case["valid"], case["mutated"], bool(case.get("via_object")),
                                   bool(case.get("national")))
     return {"ok": verdict != "bad", "observed": obs, "expected": "reject"}
